@@ -571,6 +571,14 @@ func (x *kx) and(n *knf, mask int64) *knf {
 	if mask >= 0 && mask&(mask+1) == 0 && lo >= 0 && hi <= mask {
 		return n
 	}
+	// n & (2^j - 1) is n mod 2^j
+	if mask > 0 && mask&(mask+1) == 0 {
+		j := int64(0)
+		for (int64(1) << uint(j)) <= mask {
+			j++
+		}
+		return x.wrapBits(n, j, false)
+	}
 	if mask < 0 {
 		return x.atom(&katom{kind: "and", key: fmt.Sprintf("and(%d;%s)", mask, n.key()), args: []*knf{n}, k: mask, lo: -kInf, hi: kInf})
 	}
@@ -1039,6 +1047,12 @@ func (x *kx) val(f *kframe, v ssa.Value) kval {
 	case *ssa.Global:
 		o := x.globals[c]
 		if o == nil {
+			// a package variable of an empty struct type carries no state (binary.LittleEndian)
+			if st, ok := c.Type().Underlying().(*types.Pointer).Elem().Underlying().(*types.Struct); ok && st.NumFields() == 0 {
+				o = x.newObj(c.Name())
+				x.globals[c] = o
+				return kval{kind: kvPtr, obj: o}
+			}
 			if b, ok := c.Type().Underlying().(*types.Pointer).Elem().Underlying().(*types.Basic); ok && b.Info()&types.IsBoolean != 0 {
 				kfail("dispatch on the package flag %s to code that has no Go body (assembly)", c.Name())
 			}
@@ -1571,6 +1585,11 @@ func (x *kx) binop(f *kframe, t *ssa.BinOp) kval {
 			}
 			return kint(an.c ^ bn.c)
 		}
+		// bit fields that cannot overlap: one operand is below 2^k, the other a multiple of 2^k
+		// (b0 | b1<<8 | b2<<16): or and xor are then the sum
+		if x.disjointBits(an, bn) || x.disjointBits(bn, an) {
+			return x.typed(an.comb(bn, 1), t.Type())
+		}
 		kfail("bitwise %s of sample-dependent values", t.Op)
 	case token.REM:
 		if an.isConst() && bn.isConst() && bn.c != 0 {
@@ -1665,4 +1684,64 @@ func (x *kx) evalCall(f *kframe, t *ssa.Call) kval {
 		kfail("call of a function value that is not known statically")
 	}
 	return x.call(fv.fn, args, fv.bind)
+}
+
+// disjointBits: a is in [0, 2^k) and every term of b is a multiple of 2^k with b >= 0.
+func (x *kx) disjointBits(a, b *knf) bool {
+	alo, ahi := x.iv(a)
+	blo, _ := x.iv(b)
+	if alo < 0 || blo < 0 || ahi >= kInf {
+		return false
+	}
+	k := int64(0)
+	for (int64(1) << uint(k)) <= ahi {
+		k++
+		if k > 40 {
+			return false
+		}
+	}
+	m := int64(1) << uint(k)
+	if b.c%m != 0 {
+		return false
+	}
+	for _, c := range b.t {
+		if c%m != 0 {
+			return false
+		}
+	}
+	return true
+}
+
+// lazyVal evaluates a value on demand from its operands, ignoring control flow: for straight-line
+// expressions (header field extraction) whose operands dominate the use. A phi is a failure.
+func (x *kx) lazyVal(f *kframe, v ssa.Value, depth int) kval {
+	if r, ok := f.env[v]; ok {
+		return r
+	}
+	if depth > 60 {
+		kfail("expression too deep")
+	}
+	switch v.(type) {
+	case *ssa.Const, *ssa.Function, *ssa.Global, *ssa.Builtin:
+		return x.val(f, v)
+	case *ssa.Phi:
+		kfail("the value depends on control flow (phi) in %s", f.fn.Name())
+	case *ssa.Parameter, *ssa.FreeVar:
+		kfail("parameter %s has no value", v.Name())
+	}
+	in, ok := v.(ssa.Instruction)
+	if !ok {
+		kfail("cannot evaluate %T", v)
+	}
+	for _, op := range in.Operands(nil) {
+		if *op != nil {
+			if _, isB := (*op).(*ssa.Builtin); isB {
+				continue
+			}
+			f.env[*op] = x.lazyVal(f, *op, depth+1)
+		}
+	}
+	r := x.evalInstr(f, v)
+	f.env[v] = r
+	return r
 }
